@@ -284,20 +284,33 @@ func c16Check(c specCase, r *h.Rec) error {
 						if fld != nil {
 							wantType = goTypeText(fld.Type)
 						}
-						if params[i+1][0] != pn || params[i+1][1] != wantType {
-							return h.Violf("custom query %s: argument %d is `%s %s`, expected `%s %s` (typed like the field %s it is compared with)\n%s", qe.fn, i+1, params[i+1][0], params[i+1][1], pn, wantType, qe.fields[i], src())
+						// the statement fixes number, order and types of the arguments, not their Go names
+						if params[i+1][1] != wantType {
+							return h.Violf("custom query %s: argument %d (for $%s$) is `%s %s`, expected the type %s of the field %s it is compared with\n%s", qe.fn, i+1, pn, params[i+1][0], params[i+1][1], wantType, qe.fields[i], src())
 						}
 					}
 					// the SQL literal
 					gotSQL := ""
+					var passed []string
 					ast.Inspect(fd.Body, func(n ast.Node) bool {
 						if call, ok := n.(*ast.CallExpr); ok && len(call.Args) > 0 {
 							if lit, ok := call.Args[0].(*ast.BasicLit); ok && lit.Kind == token.STRING && gotSQL == "" {
 								gotSQL = constant.StringVal(constant.MakeFromLiteral(lit.Value, token.STRING, 0))
+								for _, a := range call.Args[1:] {
+									passed = append(passed, types.ExprString(a))
+								}
 							}
 						}
 						return true
 					})
+					// $1..$n are bound positionally: the arguments are passed in the order of the parameters
+					var declared []string
+					for _, p := range params[1:] {
+						declared = append(declared, p[0])
+					}
+					if strings.Join(passed, ",") != strings.Join(declared, ",") {
+						return h.Violf("custom query %s passes the values (%s) for $1..$%d, its parameters are (%s)\n%s", qe.fn, strings.Join(passed, ", "), len(declared), strings.Join(declared, ", "), src())
+					}
 					if normSQL(gotSQL) != normSQL(qe.sql) {
 						return h.Violf("custom query %s sends\n    %s\n  expected\n    %s\n%s", qe.fn, normSQL(gotSQL), normSQL(qe.sql), src())
 					}
